@@ -61,6 +61,10 @@ pub struct Runner {
     pub rt_flavor: String,
     pub scen_id: String,
     last_digest: Option<Vec<(String, String)>>,
+    /// A directory on the HOST whose absolute path equals an archive path of the current source
+    /// tree (`/tmp/cvmirror-…/…`), holding sentinel files: code that takes an archive path for a
+    /// path on this machine touches it. Watched like the sentinels beside the destination.
+    mirror: Option<PathBuf>,
     /// Scenario flag "session": backups and deletes (unless marked "fresh") go through ONE long-lived
     /// Archive handle, as a program embedding the library would use it; everything else, and steps
     /// marked fresh, open the archive anew as each run of the command-line tool does.
@@ -419,6 +423,7 @@ impl Runner {
             rt_flavor: "ct".into(),
             scen_id: String::new(),
             last_digest: None,
+            mirror: None,
         }
     }
 
@@ -465,6 +470,7 @@ impl Runner {
         self.saved.clear();
         self.src_tree.clear();
         self.last_digest = None;
+        self.drop_mirror();
         self.counter = 0;
         self.scen_id = sc["id"].as_str().unwrap_or("?").to_string();
         self.rt_flavor = sc.get("rt").and_then(|x| x.as_str()).unwrap_or("ct").to_string();
@@ -742,6 +748,10 @@ impl Runner {
     pub fn set_tree(&mut self, nodes: &[Node]) {
         // `@OUTSIDE@` in a symlink target stands for the absolute path of the sentinel area
         let outside = self.work.join("outside").to_string_lossy().to_string();
+        // a path component `@MIRROR@` (under `/tmp`) stands for a name unique to this run; the same
+        // absolute path is then created on the host, with a sentinel file for every file below it
+        let has_mirror = nodes.iter().any(|n| n.p.len() >= 2 && n.p[0] == b"tmp" && n.p[1] == b"@MIRROR@");
+        let mirror_name = format!("cvmirror-{}-{}", std::process::id(), self.counter);
         let nodes: Vec<Node> = nodes
             .iter()
             .map(|n| {
@@ -750,14 +760,67 @@ impl Runner {
                     let t = String::from_utf8_lossy(&n.t).replace("@OUTSIDE@", &outside);
                     n.t = t.into_bytes();
                 }
+                if has_mirror {
+                    for c in n.p.iter_mut() {
+                        if c == b"@MIRROR@" {
+                            *c = mirror_name.as_bytes().to_vec();
+                        }
+                    }
+                }
                 n
             })
             .collect();
         let nodes = &nodes[..];
         tree::materialize(&self.src, nodes).expect("materialize source tree");
+        if has_mirror {
+            self.drop_mirror();
+            let root = PathBuf::from("/tmp").join(&mirror_name);
+            fs::create_dir_all(&root).expect("mirror root");
+            for n in nodes {
+                if n.p.len() >= 3 && n.p[0] == b"tmp" && n.p[1] == mirror_name.as_bytes() {
+                    let host = PathBuf::from("/").join(n.rel_path());
+                    match n.k.as_str() {
+                        "Dir" => {
+                            let _ = fs::create_dir_all(&host);
+                        }
+                        "File" => {
+                            if let Some(parent) = host.parent() {
+                                let _ = fs::create_dir_all(parent);
+                            }
+                            let _ = fs::write(&host, b"precious: a file of this machine, not of the backup");
+                        }
+                        _ => {}
+                    }
+                }
+            }
+            self.mirror = Some(root);
+        }
         // the projection of what is really there is what counts
         self.src_tree = tree::project_source(&self.src).expect("project source");
         self.log.emit(json!({"ev": "src", "tree": tree::tree_json(&self.src_tree)}));
+    }
+
+    pub fn finish_scenario(&mut self) {
+        self.drop_mirror();
+    }
+
+    fn drop_mirror(&mut self) {
+        if let Some(m) = self.mirror.take() {
+            if m.starts_with("/tmp") && m.file_name().map(|n| n.to_string_lossy().starts_with("cvmirror-")).unwrap_or(false) {
+                tree::remove_tree(&m);
+            }
+        }
+    }
+
+    /// Digest of everything watched outside a restore destination: the sentinel area and the host mirror.
+    fn watched_digest(&self) -> String {
+        let outside = self.work.join("outside");
+        let mut d = if outside.exists() { tree::digest(&tree::project(&outside).unwrap()) } else { String::new() };
+        if let Some(m) = &self.mirror {
+            d.push('+');
+            d.push_str(&tree::digest(&tree::project(m).unwrap_or_default()));
+        }
+        d
     }
 
     pub fn do_save(&mut self) {
@@ -998,7 +1061,7 @@ impl Runner {
             _ => fs::create_dir_all(&dest).unwrap(),
         }
         let dest_before = if dest_kind == "nonempty" { tree::digest(&tree::project(&dest).unwrap()) } else { String::new() };
-        let outside_before = if outside.exists() { tree::digest(&tree::project(&outside).unwrap()) } else { String::new() };
+        let outside_before = self.watched_digest();
         let paths = self.archive_paths();
         let mfacts = match_facts(&excl, &paths);
         let traced = st.get("strace").and_then(|x| x.as_bool()).unwrap_or(false);
@@ -1071,7 +1134,7 @@ impl Runner {
         }) };
         let restored = tree::project(&dest).unwrap_or_default();
         let dest_after = if dest_kind == "nonempty" { tree::digest(&restored) } else { String::new() };
-        let outside_after = if outside.exists() { tree::digest(&tree::project(&outside).unwrap()) } else { String::new() };
+        let outside_after = self.watched_digest();
         self.log.emit(json!({"ev": "obs", "what": "restore", "band": band, "picked": *picked.lock().unwrap(),
             "subtree": tree::comps_of(&subtree), "has_subtree": !subtree.is_empty(), "match": mfacts, "excl": excl,
             "overwrite": overwrite, "dest": dest_kind, "res": out.res, "panic": out.panic, "pmsg": out.panic_msg, "timeout": out.timeout,
